@@ -193,3 +193,36 @@ Proof.
       destruct (Hw e (or_introl eq_refl)) as [A _]. rewrite A. cbn. apply IH. intros e' He'. apply Hw. right. exact He'. }
     rewrite E. reflexivity.
 Qed.
+
+(** ... and its own Load (reads of any sizes, then the EOF probe, close) and Delete of a file key *)
+Definition sev_of_load (rs : list nat) : list sev :=
+  Sev 7 1 0 :: map (fun n => Sev 8 1 (Z.of_nat n)) rs ++ [Sev 8 1 0; Sev 4 1 0].
+Lemma sum_args_reads rs acc tail (Ht : forall e, In e tail -> scode e <> 8%Z \/ sarg e = 0%Z) :
+  fold_left (fun a e => if (scode e =? 8)%Z then (a + sarg e)%Z else a) (map (fun n => Sev 8 1 (Z.of_nat n)) rs ++ tail) acc
+  = (acc + Z.of_nat (fold_right Nat.add 0%nat rs))%Z.
+Proof.
+  revert acc. induction rs as [|n rs IH]; intros acc; cbn [map app fold_left fold_right].
+  - rewrite Z.add_0_r. induction tail as [|e tail IHt] in acc, Ht |- *; [reflexivity|]. cbn [fold_left].
+    destruct (Ht e (or_introl eq_refl)) as [E|E].
+    + apply Z.eqb_neq in E. rewrite E. apply IHt. intros e' He'. apply Ht. right. exact He'.
+    + rewrite E, Z.add_0_r. destruct (scode e =? 8)%Z; apply IHt; intros e' He'; apply Ht; right; exact He'.
+  - change (scode (Sev 8 1 (Z.of_nat n)) =? 8)%Z with true. cbn iota. cbn [sarg]. rewrite IH, Nat2Z.inj_add. lia.
+Qed.
+Theorem load_trace_ok_of_model rs :
+  load_trace_ok (Z.of_nat (fold_right Nat.add 0%nat rs)) (sev_of_load rs) = true.
+Proof.
+  unfold load_trace_ok, sev_of_load. cbn [filter core scode andb Z.leb Z.compare].
+  assert (Hf : filter core (map (fun n => Sev 8 1 (Z.of_nat n)) rs ++ [Sev 8 1 0; Sev 4 1 0]) =
+               map (fun n => Sev 8 1 (Z.of_nat n)) rs ++ [Sev 8 1 0; Sev 4 1 0]).
+  { rewrite filter_app. cbn [filter core scode andb Z.leb Z.compare]. f_equal.
+    induction rs as [|n rs IH]; cbn; [reflexivity | rewrite IH; reflexivity]. }
+  rewrite Hf. repeat (apply andb_true_iff; split); try reflexivity.
+  - apply forallb_forall. intros e He. apply in_app_or in He. destruct He as [He|He].
+    + apply in_map_iff in He. destruct He as (n & <- & _). reflexivity.
+    + cbn in He. destruct He as [<-|[<-|[]]]; reflexivity.
+  - unfold sum_args. rewrite sum_args_reads; [cbn [Z.add]; apply Z.eqb_refl|].
+    intros e He. cbn in He. destruct He as [<-|[<-|[]]]; [right; reflexivity | left; discriminate].
+  - apply existsb_exists. exists (Sev 8 1 0). split; [apply in_or_app; right; left; reflexivity | reflexivity].
+Qed.
+Theorem delete_trace_ok_of_model : delete_trace_ok [Sev 9 1 0] = true /\ lts_delete = Some [9%Z].
+Proof. split; vm_compute; reflexivity. Qed.
